@@ -357,7 +357,7 @@ class IrProtocolBase(object):
         if cls._lead_out and packet[-1] > 0:
             packet = flatten_and_compress(packet[:-1])
             tt = sum(abs(item) for item in packet)
-            packet += [tt - cls._lead_out[-1]]
+            packet = flatten_and_compress(packet + [tt - cls._lead_out[-1]])
         else:
             packet = flatten_and_compress(packet)
 
